@@ -17,7 +17,7 @@ open Std
 
 namespace DD
 
-theorem enumDict_eq {l : List Tok} (h : l.Nodup) :
+theorem enumDict_eq {l : List DddmpTok} (h : l.Nodup) :
     enumDict l = l.zipIdx.map fun p => (p.1, (p.2 : Int)) := by
   apply dictOf_nodup
   rw [List.map_map]
@@ -26,19 +26,19 @@ theorem enumDict_eq {l : List Tok} (h : l.Nodup) :
     rfl
   rw [this]; exact h
 
-theorem enumDict_mem {l : List Tok} (h : l.Nodup) {k : Nat} {var : Tok} (hk : l[k]? = some var) :
+theorem enumDict_mem {l : List DddmpTok} (h : l.Nodup) {k : Nat} {var : DddmpTok} (hk : l[k]? = some var) :
     (var, (k : Int)) ∈ enumDict l := by
   rw [enumDict_eq h]
   exact List.mem_map.mpr ⟨(var, k), List.mk_mem_zipIdx_iff_getElem?.mpr hk, rfl⟩
 
-theorem enumDict_keys {l : List Tok} (h : l.Nodup) : ((enumDict l).map (·.1)).Nodup := by
+theorem enumDict_keys {l : List DddmpTok} (h : l.Nodup) : ((enumDict l).map (·.1)).Nodup := by
   rw [enumDict_eq h, List.map_map]
   have : (l.zipIdx.map ((fun x => x.1) ∘ fun p => (p.1, (p.2 : Int)))) = l := by
     conv => rhs; rw [← List.zipIdx_map_fst 0 l]
     rfl
   rw [this]; exact h
 
-theorem enumDict_vals {l : List Tok} (h : l.Nodup) : ((enumDict l).map (·.2)).Nodup := by
+theorem enumDict_vals {l : List DddmpTok} (h : l.Nodup) : ((enumDict l).map (·.2)).Nodup := by
   rw [enumDict_eq h, List.map_map]
   have : (l.zipIdx.map ((fun x => x.2) ∘ fun p => (p.1, (p.2 : Int)))) =
       (List.range' 0 l.length).map (fun (i : Nat) => (i : Int)) := by
@@ -47,11 +47,11 @@ theorem enumDict_vals {l : List Tok} (h : l.Nodup) : ((enumDict l).map (·.2)).N
   rw [this]
   exact nodup_map_of_inj_on _ _ (fun a _ b _ h => by omega) (List.nodup_range' (step := 1))
 
-theorem enumDict_get {l : List Tok} (h : l.Nodup) {k : Nat} {var : Tok} (hk : l[k]? = some var) :
+theorem enumDict_get {l : List DddmpTok} (h : l.Nodup) {k : Nat} {var : DddmpTok} (hk : l[k]? = some var) :
     dictGet (enumDict l) var = some (k : Int) :=
   dictGet_of_mem _ (enumDict_keys h) (enumDict_mem h hk)
 
-theorem dddmpInfo2permid_inv {f : DddmpFile} {ids permids : List Int} {i2p : List (Tok × Int)}
+theorem dddmpInfo2permid_inv {f : DddmpFile} {ids permids : List Int} {i2p : List (DddmpTok × Int)}
     (h : dddmpInfo2permid f ids permids = .ok i2p) :
     ∃ t nv, dddmpInfoTable f ids permids = .ok t ∧ f.nvars = some nv ∧
       i2p = dictSet t (.str "T") (nv + 1) := by
@@ -66,18 +66,18 @@ theorem dddmpInfo2permid_inv {f : DddmpFile} {ids permids : List Int} {i2p : Lis
       exact ⟨t, nv, ht, hnv, h.symm⟩
 
 /-- lookups in `info2permid` other than `'T'` are lookups in the table of the mode -/
-theorem i2p_get_of_table {t : List (Tok × Int)} {nv : Int} {info : Tok} (hne : info ≠ .str "T") :
+theorem i2p_get_of_table {t : List (DddmpTok × Int)} {nv : Int} {info : DddmpTok} (hne : info ≠ .str "T") :
     dictGet (dictSet t (.str "T") (nv + 1)) info = dictGet t info :=
   dictGet_dictSet_ne _ _ _ _ hne
 
 section Modes
-variable {f : DddmpFile} {i2p levels : List (Tok × Int)} {roots : List Int}
+variable {f : DddmpFile} {i2p levels : List (DddmpTok × Int)} {roots : List Int}
 
 /-- `.varinfo 3`: a node line labelled with a name of `.orderedvarnames` is a node of that
 variable -/
 theorem dddmpVarOf_varinfo3 (h : dddmpHeader f = .ok (i2p, levels, roots))
-    (hv : f.varinfo = some 3) {ov : List Tok} (ho : f.orderedvarnames = some ov) (hnd : ov.Nodup)
-    {k : Nat} {var : Tok} (hk : ov[k]? = some var) (hT : var ≠ .str "T") :
+    (hv : f.varinfo = some 3) {ov : List DddmpTok} (ho : f.orderedvarnames = some ov) (hnd : ov.Nodup)
+    {k : Nat} {var : DddmpTok} (hk : ov[k]? = some var) (hT : var ≠ .str "T") :
     dddmpVarOf i2p levels var = some var := by
   obtain ⟨ids, permids, _, _, _, _, hI, hL, _⟩ := dddmpHeader_inv h
   obtain ⟨t, nv, ht, _, rfl⟩ := dddmpInfo2permid_inv hI
@@ -101,15 +101,15 @@ theorem i2p_varinfo0 (h : dddmpHeader f = .ok (i2p, levels, roots)) (hv : f.vari
   rw [hi] at hi'; rw [hp] at hp'
   cases hi'; cases hp'
   obtain ⟨t, nv, ht, _, rfl⟩ := dddmpInfo2permid_inv hI
-  have ht' : t = dictOf ((ids.zip permids).map fun p => (Tok.num p.1, p.2)) := by
+  have ht' : t = dictOf ((ids.zip permids).map fun p => (DddmpTok.num p.1, p.2)) := by
     simp [dddmpInfoTable, hv, pure, Except.pure] at ht
     exact ht.symm
   subst ht'
   rw [i2p_get_of_table (by simp)]
-  have hkeys : (((ids.zip permids).map fun p => (Tok.num p.1, p.2)).map (·.1)).Nodup := by
+  have hkeys : (((ids.zip permids).map fun p => (DddmpTok.num p.1, p.2)).map (·.1)).Nodup := by
     rw [List.map_map]
-    have : (ids.zip permids).map ((fun x => x.1) ∘ fun p => (Tok.num p.1, p.2)) =
-        ((ids.zip permids).map Prod.fst).map Tok.num := by
+    have : (ids.zip permids).map ((fun x => x.1) ∘ fun p => (DddmpTok.num p.1, p.2)) =
+        ((ids.zip permids).map Prod.fst).map DddmpTok.num := by
       rw [List.map_map]; rfl
     rw [this, List.map_fst_zip (by omega)]
     exact nodup_map_of_inj_on _ _ (fun a _ b _ h => by cases h; rfl) hnd
@@ -127,12 +127,12 @@ theorem i2p_varinfo1 (h : dddmpHeader f = .ok (i2p, levels, roots)) (hv : f.vari
   rw [hp] at hp'
   cases hp'
   obtain ⟨t, nv, ht, _, rfl⟩ := dddmpInfo2permid_inv hI
-  have ht' : t = dictOf (permids.map fun k => (Tok.num k, k)) := by
+  have ht' : t = dictOf (permids.map fun k => (DddmpTok.num k, k)) := by
     simp [dddmpInfoTable, hv, pure, Except.pure] at ht
     exact ht.symm
   subst ht'
   rw [i2p_get_of_table (by simp)]
-  have hkeys : ((permids.map fun k => (Tok.num k, k)).map (·.1)).Nodup := by
+  have hkeys : ((permids.map fun k => (DddmpTok.num k, k)).map (·.1)).Nodup := by
     rw [List.map_map]
     exact nodup_map_of_inj_on _ _ (fun a _ b _ h => by
       simp only [Function.comp] at h; cases h; rfl) hnd
@@ -141,8 +141,8 @@ theorem i2p_varinfo1 (h : dddmpHeader f = .ok (i2p, levels, roots)) (hv : f.vari
 
 /-- with `.orderedvarnames`: the variable at level `k` is `orderedvarnames[k]` -/
 theorem levels_ordered (h : dddmpHeader f = .ok (i2p, levels, roots))
-    {ov : List Tok} (ho : f.orderedvarnames = some ov) (hnd : ov.Nodup)
-    {k : Nat} {var : Tok} (hk : ov[k]? = some var) :
+    {ov : List DddmpTok} (ho : f.orderedvarnames = some ov) (hnd : ov.Nodup)
+    {k : Nat} {var : DddmpTok} (hk : ov[k]? = some var) :
     (var, (k : Int)) ∈ levels ∧ (levels.map (·.2)).Nodup := by
   obtain ⟨_, permids, _, _, _, _, _, hL, _⟩ := dddmpHeader_inv h
   have hL' : levels = enumDict ov := by
@@ -152,17 +152,17 @@ theorem levels_ordered (h : dddmpHeader f = .ok (i2p, levels, roots))
   exact ⟨enumDict_mem hnd hk, enumDict_vals hnd⟩
 
 theorem levels_ordered_eq (h : dddmpHeader f = .ok (i2p, levels, roots))
-    {ov : List Tok} (ho : f.orderedvarnames = some ov) : levels = enumDict ov := by
+    {ov : List DddmpTok} (ho : f.orderedvarnames = some ov) : levels = enumDict ov := by
   obtain ⟨_, permids, _, _, _, _, _, hL, _⟩ := dddmpHeader_inv h
   simp [dddmpLevels, ho] at hL
   exact hL.symm
 
 /-- without `.orderedvarnames`: the variable at level `permids[j]` is `suppvarnames[j]` -/
 theorem levels_supp (h : dddmpHeader f = .ok (i2p, levels, roots))
-    (ho : f.orderedvarnames = none) {sv : List Tok} (hs : f.suppvarnames = some sv)
+    (ho : f.orderedvarnames = none) {sv : List DddmpTok} (hs : f.suppvarnames = some sv)
     {permids : List Int} (hp : f.permids = some permids)
     (hsnd : sv.Nodup) (hpnd : permids.Nodup) (hlen : permids.length = sv.length)
-    {j : Nat} {k : Int} {var : Tok} (hjk : permids[j]? = some k) (hjv : sv[j]? = some var) :
+    {j : Nat} {k : Int} {var : DddmpTok} (hjk : permids[j]? = some k) (hjv : sv[j]? = some var) :
     (var, k) ∈ levels ∧ (levels.map (·.2)).Nodup ∧ levels.map (·.2) = sortInts permids := by
   obtain ⟨_, permids', _, _, hp', _, _, hL, _⟩ := dddmpHeader_inv h
   rw [hp] at hp'
@@ -173,8 +173,8 @@ theorem levels_supp (h : dddmpHeader f = .ok (i2p, levels, roots))
   have hz : dictOf (permids.zip sv) = permids.zip sv := dictOf_nodup _ hzk
   have hsp := sortInts_perm permids
   -- the variable of a level
-  let vo : Int → Tok := fun k => (dictGet (permids.zip sv) k).getD default
-  have hvo : ∀ k, k ∈ permids → ∃ (j : Nat) (var : Tok), permids[j]? = some k ∧ sv[j]? = some var ∧
+  let vo : Int → DddmpTok := fun k => (dictGet (permids.zip sv) k).getD default
+  have hvo : ∀ k, k ∈ permids → ∃ (j : Nat) (var : DddmpTok), permids[j]? = some k ∧ sv[j]? = some var ∧
       dictGet (permids.zip sv) k = some var := by
     intro k hk
     obtain ⟨j, hj⟩ := List.getElem?_of_mem hk
@@ -228,8 +228,8 @@ variable `orderedvarnames[permids[j]]` -/
 theorem dddmpVarOf_varinfo0_ordered (h : dddmpHeader f = .ok (i2p, levels, roots))
     (hv : f.varinfo = some 0) {ids permids : List Int} (hi : f.ids = some ids)
     (hp : f.permids = some permids) (hnd : ids.Nodup) (hlen : ids.length = permids.length)
-    {ov : List Tok} (ho : f.orderedvarnames = some ov) (hond : ov.Nodup)
-    {j k : Nat} {i : Int} {var : Tok} (hji : ids[j]? = some i) (hjk : permids[j]? = some (k : Int))
+    {ov : List DddmpTok} (ho : f.orderedvarnames = some ov) (hond : ov.Nodup)
+    {j k : Nat} {i : Int} {var : DddmpTok} (hji : ids[j]? = some i) (hjk : permids[j]? = some (k : Int))
     (hk : ov[k]? = some var) :
     dddmpVarOf i2p levels (.num i) = some var := by
   obtain ⟨hm, hvals⟩ := levels_ordered h ho hond hk
@@ -239,8 +239,8 @@ theorem dddmpVarOf_varinfo0_ordered (h : dddmpHeader f = .ok (i2p, levels, roots
 variable `orderedvarnames[k]` -/
 theorem dddmpVarOf_varinfo1_ordered (h : dddmpHeader f = .ok (i2p, levels, roots))
     (hv : f.varinfo = some 1) {permids : List Int} (hp : f.permids = some permids)
-    (hnd : permids.Nodup) {ov : List Tok} (ho : f.orderedvarnames = some ov) (hond : ov.Nodup)
-    {k : Nat} {var : Tok} (hkp : (k : Int) ∈ permids) (hk : ov[k]? = some var) :
+    (hnd : permids.Nodup) {ov : List DddmpTok} (ho : f.orderedvarnames = some ov) (hond : ov.Nodup)
+    {k : Nat} {var : DddmpTok} (hkp : (k : Int) ∈ permids) (hk : ov[k]? = some var) :
     dddmpVarOf i2p levels (.num (k : Int)) = some var := by
   obtain ⟨hm, hvals⟩ := levels_ordered h ho hond hk
   exact dddmpVarOf_of_mem hvals (i2p_varinfo1 h hv hp hnd hkp) hm
@@ -251,9 +251,9 @@ theorem dddmpVarOf_varinfo0_supp (h : dddmpHeader f = .ok (i2p, levels, roots))
     (hv : f.varinfo = some 0) {ids permids : List Int} (hi : f.ids = some ids)
     (hp : f.permids = some permids) (hnd : ids.Nodup) (hpnd : permids.Nodup)
     (hlen : ids.length = permids.length)
-    (ho : f.orderedvarnames = none) {sv : List Tok} (hs : f.suppvarnames = some sv)
+    (ho : f.orderedvarnames = none) {sv : List DddmpTok} (hs : f.suppvarnames = some sv)
     (hsnd : sv.Nodup) (hlen' : permids.length = sv.length)
-    {j : Nat} {i k : Int} {var : Tok} (hji : ids[j]? = some i) (hjk : permids[j]? = some k)
+    {j : Nat} {i k : Int} {var : DddmpTok} (hji : ids[j]? = some i) (hjk : permids[j]? = some k)
     (hjv : sv[j]? = some var) :
     dddmpVarOf i2p levels (.num i) = some var := by
   obtain ⟨hm, hvals, -⟩ := levels_supp h ho hs hp hsnd hpnd hlen' hjk hjv
@@ -264,9 +264,9 @@ variable `suppvarnames[j]` -/
 theorem dddmpVarOf_varinfo1_supp (h : dddmpHeader f = .ok (i2p, levels, roots))
     (hv : f.varinfo = some 1) {permids : List Int} (hp : f.permids = some permids)
     (hpnd : permids.Nodup)
-    (ho : f.orderedvarnames = none) {sv : List Tok} (hs : f.suppvarnames = some sv)
+    (ho : f.orderedvarnames = none) {sv : List DddmpTok} (hs : f.suppvarnames = some sv)
     (hsnd : sv.Nodup) (hlen' : permids.length = sv.length)
-    {j : Nat} {k : Int} {var : Tok} (hjk : permids[j]? = some k) (hjv : sv[j]? = some var) :
+    {j : Nat} {k : Int} {var : DddmpTok} (hjk : permids[j]? = some k) (hjv : sv[j]? = some var) :
     dddmpVarOf i2p levels (.num k) = some var := by
   obtain ⟨hm, hvals, -⟩ := levels_supp h ho hs hp hsnd hpnd hlen' hjk hjv
   exact dddmpVarOf_of_mem hvals (i2p_varinfo1 h hv hp hpnd (List.mem_of_getElem? hjk)) hm
